@@ -26,8 +26,9 @@ inductive Val
   | excClass (name : String)
   | excValue (cls : String) (msg : Str)
   | fn (name : String)           -- builtin / harness callables: R, len, str, int, bool
-  | macros | template_
-  | macro (name : Option Str)
+  | macros (tid : Nat)           -- `template.macros` of template `tid` (0 = the template being rendered, k > 0 = library k)
+  | template_ (tid : Nat)
+  | macro (tid : Nat) (name : Option Str)   -- a macro of template `tid`; `none`: the whole template used as a macro
   | slots (id : Nat)             -- a deque of slot fillers (by reference: row `id` of the heap)
   deriving Repr, Inhabited, BEq
 
@@ -78,7 +79,7 @@ def typeName : Val → String
   | .bytes _ => "bytes" | .list _ => "list" | .tuple _ => "tuple" | .dict _ => "dict" | .obj _ => "Obj"
   | .markup _ => "Markup" | .cint _ => "callableint" | .cstr _ => "callablestr" | .repeatDict => "RepeatDict"
   | .repeatItem _ => "RepeatItem" | .errorInfo .. => "ErrorInfo" | .excClass _ => "type"
-  | .excValue c _ => c | .fn _ => "function" | .macros => "Macros" | .template_ => "PageTemplate" | .macro _ => "Macro" | .slots _ => "deque"
+  | .excValue c _ => c | .fn _ => "function" | .macros _ => "Macros" | .template_ _ => "PageTemplate" | .macro _ _ => "Macro" | .slots _ => "deque"
 
 /-- `bool(v)` -/
 def truthy (tab : ObjTab) : Val → R Bool
